@@ -269,6 +269,10 @@ func derivedDetours(pats []string) []string {
 			out = append(out, p[:i]+".c/x", p[:i]+"c/x", p[:i]+".c"+p[i:])
 		}
 		out = append(out, p+"x", strings.TrimSuffix(p, "/")+"/x")
+		// a sibling that sorts before (and one after) the last edge of the pattern
+		if n := len(p); n > 1 && p[n-1] >= 'a' && p[n-1] <= 'z' {
+			out = append(out, p[:n-1]+"0", p[:n-1]+"~")
+		}
 	}
 	return out
 }
